@@ -360,6 +360,11 @@ func (m *Machine) pcModel() map[string]uint64 {
 		m.model, m.modelValid = mdl, true
 		return mdl
 	}
+	if r == Unsat {
+		// every extension of the path condition was checked feasible when it was
+		// scheduled: an unsatisfiable one means the replayed prefix did not line up
+		panic(unsupported("path condition unsatisfiable after replaying a decision prefix (decision log out of step)"))
+	}
 	return nil
 }
 
@@ -397,6 +402,9 @@ func (m *Machine) chooseEx(alts []*Term, site string, exhaustive bool) int {
 	}
 	if m.pos < len(m.prefix) {
 		k := int(m.prefix[m.pos])
+		if k < 0 || k >= len(alts) || alts[k].IsFalse() {
+			panic(unsupported("decision log out of step at " + site))
+		}
 		m.pos++
 		m.taken = append(m.taken, int64(k))
 		m.modelValid = false
